@@ -1515,15 +1515,36 @@ class C09(Check):
         from wntr.sim.network_isolation import check_for_isolated_junctions, get_long_size
 
         dt = np.int64 if get_long_size() == 8 else np.int32
-        lines, impl = [], []
-        for c in cases:
-            ind = np.array(c["ind"], dtype=dt)
-            check_for_isolated_junctions(np.array(c["sources"], dtype=dt), ind, np.array(c["indptr"], dtype=dt),
-                                         np.array(c["indices"], dtype=dt), np.array(c["data"], dtype=dt),
-                                         np.array(c["nconn"], dtype=dt))
-            impl.append(_c(ind))
-            lines.append("csr %s | %s | %s | %s | %s | %s" % tuple(
-                " ".join(map(str, c[k])) for k in ("sources", "ind", "indptr", "indices", "data", "nconn")))
+        # the compiled function runs in a forked child: an edit that makes it read or write out of bounds must end in a
+        # replayable failure, not in a dead checker
+        rfd, wfd = os.pipe()
+        pid = os.fork()
+        if pid == 0:
+            try:
+                os.close(rfd)
+                with os.fdopen(wfd, "w") as f:
+                    for c in cases:
+                        ind = np.array(c["ind"], dtype=dt)
+                        check_for_isolated_junctions(np.array(c["sources"], dtype=dt), ind, np.array(c["indptr"], dtype=dt),
+                                                     np.array(c["indices"], dtype=dt), np.array(c["data"], dtype=dt),
+                                                     np.array(c["nconn"], dtype=dt))
+                        f.write(_c(ind) + "\n")
+                        f.flush()
+            finally:
+                os._exit(0)
+        os.close(wfd)
+        with os.fdopen(rfd) as f:
+            impl = [l.strip() for l in f.read().splitlines()]
+        _, status = os.waitpid(pid, 0)
+        if len(impl) < len(cases):
+            c = cases[len(impl)]
+            self._search_crashed = True
+            failures.append(Failure("cpp-search-crash",
+                                    "check_for_isolated_junctions killed the interpreter (wait status %d) on a well-formed CSR input" % status,
+                                    {"input": c, "observed": "process died", "expected": self._csr_reach(c)}))
+            cases = cases[:len(impl)]
+        lines = ["csr %s | %s | %s | %s | %s | %s" % tuple(
+            " ".join(map(str, c[k])) for k in ("sources", "ind", "indptr", "indices", "data", "nconn")) for c in cases]
         out = vlib.lean_run(DRIVER, "\n".join(lines) + "\n") if lines else []
         if len(out) != len(lines):
             raise vlib.Infra("IsolationDriver returned %d lines for %d requests" % (len(out), len(lines)))
@@ -1533,7 +1554,9 @@ class C09(Check):
             ctx.count("csr:" + c["kind"])
             # independent reachability on the flat arrays (the statement of dfs_reaches_exactly)
             exp = self._csr_reach(c)
-            if a != exp:
+            # a concrete violation only on inputs of the kind the simulator produces (entries 0 / 1); on other entries a difference
+            # from the model is a broken tie, not a defect (`val != 0` would be a harmless rewrite of `val == 1`)
+            if a != exp and all(d in (0, 1) for d in c["data"]):
                 failures.append(Failure("cpp-search-reachability",
                                         "check_for_isolated_junctions differs from reachability through data==1 entries: got %s expected %s" % (a, exp),
                                         {"input": c, "observed": a, "expected": exp}))
@@ -1799,7 +1822,12 @@ class C09(Check):
             c["links"] = [tuple(l) for l in c["links"]]
             c["ctrls"] = [tuple(l) for l in c["ctrls"]]
         csr, nets, runs = self._cases(ctx)
+        self._search_crashed = False
         self.corr_csr(ctx, ccsr + csr, failures, broken)
+        if self._search_crashed or any(f.key.startswith("cpp-search") for f in failures):
+            # the same compiled function would be called in-process by the simulator (and an out-of-bounds read there kills the
+            # checker): stop here with the concrete failing input
+            return failures, broken
         self.corr_net(ctx, cnet + nets, failures, broken)
         self.corr_runs(ctx, crun + runs, failures, broken)
         return failures, broken
@@ -1808,6 +1836,7 @@ class C09(Check):
         """something no longer checks: wider generators, judged by the statement's oracles on the real code only"""
         failures, b2 = [], []
         csr, nets, runs = self._cases(ctx, wide=True)
+        self._search_crashed = False
         self.corr_csr(ctx, csr[:600], failures, b2)
         if not failures:
             self.corr_net(ctx, nets[:250], failures, b2)
